@@ -638,6 +638,7 @@ type simCluster struct {
 	asks   int
 	wg     sync.WaitGroup
 	closed bool
+	onAsk  func() // called (under mu) when a node emits ASK
 }
 
 func newSimCluster(n int) *simCluster {
@@ -909,6 +910,9 @@ func (nd *simNode) handle(v *wv, asking *bool) *wv {
 			if _, has := nd.store[string(key)]; !has {
 				cl.asks++
 				entry.result = "ask"
+				if cl.onAsk != nil {
+					cl.onAsk()
+				}
 				return wErr(fmt.Sprintf("ASK %d %s", slot, cl.nodes[tgt].addr))
 			}
 		}
@@ -1009,7 +1013,8 @@ func redisConfig(port int, strategy int32, connectTimeout time.Duration) *servic
 }
 
 func startRedisProxy(seeds []string, strategy int32) *simProxy {
-	simTimersOnce.Do(func() { redis.VerifSetSlotsRefresh(400*time.Millisecond, 15*time.Millisecond) })
+	// no periodic refresh: the routing table only follows triggers (start, redirections, unreachable nodes)
+	simTimersOnce.Do(func() { redis.VerifSetSlotsRefresh(time.Hour, 15*time.Millisecond) })
 	simProxySeq++
 	name := fmt.Sprintf("sim%d", simProxySeq)
 	port := freePort()
@@ -1122,3 +1127,34 @@ func (sc *simClient) recv(timeout time.Duration) (*wv, error) {
 }
 
 func (sc *simClient) close() { sc.c.Close() }
+
+// failover: node idx crashes; a replica with the same data takes over its slots under a new address.
+func (cl *simCluster) failover(idx int) *simNode {
+	old := cl.nodes[idx]
+	old.stop()
+	cl.mu.Lock()
+	nd := &simNode{cl: cl, idx: len(cl.nodes), master: -1, conns: map[net.Conn]struct{}{}, migrate: old.migrate, importF: old.importF, store: old.store}
+	nd.id = fmt.Sprintf("%040x", 0xabc000+nd.idx)
+	old.migrate, old.importF, old.store = map[int]int{}, map[int]int{}, map[string]*sval{}
+	cl.nodes = append(cl.nodes, nd)
+	for s := range cl.owner {
+		if cl.owner[s] == idx {
+			cl.owner[s] = nd.idx
+		}
+	}
+	for _, x := range cl.nodes {
+		for s, t := range x.migrate {
+			if t == idx {
+				x.migrate[s] = nd.idx
+			}
+		}
+		for s, f := range x.importF {
+			if f == idx {
+				x.importF[s] = nd.idx
+			}
+		}
+	}
+	cl.mu.Unlock()
+	nd.listen("127.0.0.1:0")
+	return nd
+}
